@@ -101,6 +101,19 @@ def replay(step, verbose=True):
     ins = [build(model, d) for d in step["in"]]
     refs = [dense(x) for x in ins]
     op = step["op"]
+    # a step exported from a run in which an EARLIER operation had already corrupted an operand is not a witness:
+    # the operands must be valid inputs (their own labels describe them) before the call
+    for i, x in enumerate(ins):
+        try:
+            y = x.copy()
+            y.ensure_left_canonical()
+            ok_in = float(np.linalg.norm(dense(y) - refs[i]) / max(1.0, np.linalg.norm(refs[i]))) <= 1e-9
+        except Exception:
+            ok_in = False
+        if not ok_in:
+            if verbose:
+                print("operand %d is not a valid input (its labels do not describe it before the call): step is not a witness" % i)
+            return 0
     val = complex(*step["val"]) if "val" in step and step["val"] is not None else None
     if op in ("add", "opadd", "dmadd"):
         r = ins[0].add(ins[1]); ref = refs[0] + refs[1]
@@ -135,7 +148,10 @@ def replay(step, verbose=True):
         return 0
     bad = operands_untouched(step, ins, refs, verbose)
     scale_ = max(1.0, np.linalg.norm(ref))
-    for how in ("", "L", "R"):
+    # a result with an all-zero site tensor (e.g. the operator annihilates the state) cannot be canonicalised by the
+    # code (assert mt.any()): it is only compared as returned
+    zero_site = not all(np.asarray(mt.array).any() for mt in r)
+    for how in (("",) if zero_site else ("", "L", "R")):
         try:
             x = r.copy()
             if how == "L":
